@@ -475,13 +475,8 @@ func (b *RefinementBuilder) StringPrefixFull(prefix string) *RefinementBuilder {
 	// match it.
 	if b.orig.IsKnown() && !b.orig.IsNull() {
 		have := b.orig.AsString()
-		matchLen := len(have)
-		if l := len(prefix); l < matchLen {
-			matchLen = l
-		}
-		have = have[:matchLen]
-		new := prefix[:matchLen]
-		if have != new {
+		if !strings.HasPrefix(have, prefix) {
+			// (this also covers a prefix longer than the known string)
 			panic("refined prefix is inconsistent with known value")
 		}
 	}
